@@ -214,6 +214,8 @@ def run(prog, chk):
                                     sides = {SX.show(_peel(cp[1])), SX.show(_peel(cp[2]))}
                                     if sides == {bound, btxt + '.size()'}:
                                         hi = True
+                        if not hi:
+                            hi = _bound_by_cases(f, g, node, bound, btxt)
             chk.ob('R07.4', f, n.get('ln', f.ln), lo and hi, '%s[%s] needs the dominating test %s < 0 || %s >= %s.size() (found lower=%s upper=%s)' % (btxt[-30:], itxt, itxt, itxt, btxt[-30:], lo, hi),
                    key='subscript:%s:%s[%s]' % (f.short, base['name'], itxt))
     chk.count('computed subscripts of value arrays', nsub, 12)
@@ -286,6 +288,7 @@ def _induction(f, node, idx):
     for lp in reversed([s for s in enclosing_stmts(f.body, node) if s['k'] == 'for']):
         fr = full_range_for(lp)
         if fr and fr[0] == idx.get('id'):
+            _induction.last_bound = _peel(fr[1])
             return SX.show(_peel(fr[1]))
     return None
 
@@ -465,9 +468,10 @@ def _routing(prog, chk, ev):
             ok = pl < 0 and (pf < 0 or opb == '%')
         chk.ob('R07.6', ev, node.ln or ev.ln, ok, 'result tagged %s in the `%s` branch sits under the matching operand-type guards (float:%+d long:%+d)' % (tag, opb, pf, pl),
                key='tag:%s:%s' % (opb, tag))
-    chk.count('double-operand operations in the cascade', nD, 8)
-    chk.count('integer-operand operations in the cascade', nN, 8)
-    chk.count('tagged numeric results', ntag, 10)
+    # lower bounds guard against the cascade vanishing from view, not against branches being merged (the operator tables above decide values)
+    chk.count('double-operand operations in the cascade', nD, 4)
+    chk.count('integer-operand operations in the cascade', nN, 4)
+    chk.count('tagged numeric results', ntag, 6)
 
 
 # ------------------------------------------------------------------------------------------------------
@@ -768,3 +772,88 @@ def _unary_table(prog, chk, ev):
     chk.extra['unary_cases'] = n
     chk.ob('R07.9', ev, un.get('ln', ev.ln), not mism, '%d unary/postfix cases give the documented type and value; mismatches: %s' % (n, mism[:6]), key='table:unary-postfix')
     chk.count('unary/postfix cases evaluated', n, 10)
+
+
+def _bound_by_cases(f, g, node, bound, btxt):
+    """The loop bound is a local `n = c ? A.size() : B.size()` (c a boolean local).  At the subscript X[i] some of the boolean
+    locals are known from the dominating guards; in every case of c that is still possible, n is X.size() itself or a size that a
+    dominating check `if (p && q && A.size() != X.size()) throw` (all of p, q known true in that case) forces to be equal."""
+    bnode = getattr(_induction, 'last_bound', None)
+    bid = bnode.get('id') if SX.is_node(bnode) and bnode.get('k') == 'ref' else None
+    decl = [v for v in SX.walk(f.body, into_lambdas=False) if v['k'] == 'var' and v.get('id') == bid and SX.is_node(v.get('init'))]
+    if bid is None or len(decl) != 1:
+        return False
+    if any((SX.write_target(n_) or [None])[0] is not None and SX.strip(SX.write_target(n_)[0]).get('id') == decl[0]['id'] for n_ in SX.walk(f.body, into_lambdas=False)):
+        return False
+    init = _peel(SX.strip(decl[0]['init']))
+    alts = []
+    if init.get('k') == 'cond' and SX.strip(init['c']).get('k') == 'ref':
+        cid = SX.strip(init['c'])['id']
+        alts = [(cid, True, SX.show(_peel(SX.strip(init['t'])))), (cid, False, SX.show(_peel(SX.strip(init['f']))))]
+    else:
+        alts = [(None, None, SX.show(init))]
+    want = btxt + '.size()'
+    known = {}
+    neg_conj = []      # guards of the form ¬(a && b && …): lists of atoms
+    for ce, pol, _ in g.guards(node):
+        c0 = SX.strip(ce)
+        if SX.is_node(c0) and c0.get('k') == 'ref' and c0.get('t', '').replace('const ', '') == 'bool':
+            known[c0['id']] = pol
+        if not pol:
+            atoms = []
+
+            def split(e_):
+                e_ = SX.strip(e_)
+                if SX.is_node(e_) and e_.get('k') == 'bin' and e_.get('op') == '&&':
+                    split(e_['l'])
+                    split(e_['r'])
+                else:
+                    atoms.append(e_)
+            split(c0)
+            if len(atoms) > 1:
+                neg_conj.append(atoms)
+    # earlier sibling checks `if (a && b && …) throw/return;` of the enclosing blocks: past them the conjunction is false
+    from ..kernels import enclosing_stmts
+    target = node.e if node.kind != 'decl' else node.e
+    chain = [b_ for b_ in enclosing_stmts(f.body, target) if b_['k'] == 'block']
+    for blk in chain:
+        for st in blk['body']:
+            if any(y is target for y in SX.walk(st)):
+                break
+            if st['k'] == 'if' and not st.get('e') and not st.get('cv'):
+                tb = st['t']
+                last = tb['body'][-1] if tb.get('k') == 'block' and tb.get('body') else tb
+                if last.get('k') in ('throw', 'return', 'ireturn') or (last.get('k') == 'expr' and SX.is_node(SX.strip(last.get('e'))) and SX.strip(last['e']).get('k') == 'throw') \
+                        or (last.get('k') == 'block' and last.get('body') and last['body'][-1].get('k') == 'ireturn'):
+                    atoms = []
+
+                    def split2(e_):
+                        e_ = SX.strip(e_)
+                        if SX.is_node(e_) and e_.get('k') == 'bin' and e_.get('op') == '&&':
+                            split2(e_['l'])
+                            split2(e_['r'])
+                        else:
+                            atoms.append(e_)
+                    split2(st['c'])
+                    if len(atoms) > 1:
+                        neg_conj.append(atoms)
+    for cid, pol, size in alts:
+        if cid is not None and cid in known and known[cid] != pol:
+            continue      # this case cannot reach the subscript
+        if size == want:
+            continue
+        assume = dict(known)
+        if cid is not None:
+            assume[cid] = pol
+        forced = False
+        for atoms in neg_conj:
+            bools = [a for a in atoms if SX.is_node(a) and a.get('k') == 'ref']
+            rest = [a for a in atoms if not (SX.is_node(a) and a.get('k') == 'ref')]
+            if len(rest) != 1 or not all(assume.get(b_['id']) is True for b_ in bools):
+                continue
+            cp = SX.cmp_parts(rest[0])
+            if cp and cp[0] == '!=' and {SX.show(_peel(cp[1])), SX.show(_peel(cp[2]))} == {size, want}:
+                forced = True
+        if not forced:
+            return False
+    return True
